@@ -1186,11 +1186,15 @@ impl TransportsSender {
                         .v4_iter_mut()
                         .find(|s| s.is_valid_send_addr(*src, dst_addr))
                     {
+                        #[cfg(feature = "verif-hooks")]
+                        crate::verif_hooks::c19::chosen(sender.verif_config(), false);
                         return Pin::new(sender).poll_send(cx, *dst_addr, *src, transmit);
                     }
                     if let Some(sender) = self.ip.v4_default_mut()
                         && sender.is_valid_default_addr(*src, dst_addr)
                     {
+                        #[cfg(feature = "verif-hooks")]
+                        crate::verif_hooks::c19::chosen(sender.verif_config(), true);
                         return Pin::new(sender).poll_send(cx, *dst_addr, *src, transmit);
                     }
                 }
@@ -1200,11 +1204,15 @@ impl TransportsSender {
                         .v6_iter_mut()
                         .find(|s| s.is_valid_send_addr(*src, dst_addr))
                     {
+                        #[cfg(feature = "verif-hooks")]
+                        crate::verif_hooks::c19::chosen(sender.verif_config(), false);
                         return Pin::new(sender).poll_send(cx, *dst_addr, *src, transmit);
                     }
                     if let Some(sender) = self.ip.v6_default_mut()
                         && sender.is_valid_default_addr(*src, dst_addr)
                     {
+                        #[cfg(feature = "verif-hooks")]
+                        crate::verif_hooks::c19::chosen(sender.verif_config(), true);
                         return Pin::new(sender).poll_send(cx, *dst_addr, *src, transmit);
                     }
                 }
@@ -1242,6 +1250,28 @@ impl TransportsSender {
         // to make sure the QUIC stack picks up that currently this data does not arrive.
         trace!(%network_path, "no valid transport available");
         Poll::Ready(Ok(()))
+    }
+}
+
+/// Verification hook (C19): a [`TransportsSender`] over IP sockets bound from `configs`
+/// through the real [`IpTransports::bind`], no relay senders, the given custom senders.
+#[cfg(all(feature = "verif-hooks", not(wasm_browser)))]
+impl TransportsSender {
+    #[allow(clippy::type_complexity)]
+    pub(crate) fn verif_new(
+        configs: Vec<IpConfig>,
+        custom: Vec<Arc<dyn CustomSender>>,
+        metrics: &EndpointMetrics,
+    ) -> io::Result<(Self, (Vec<IpConfig>, Option<usize>, Vec<IpConfig>, Option<usize>))> {
+        let ip = IpTransports::bind(configs.into_iter(), metrics)?;
+        let layout = ip.verif_layout();
+        let sender = Self {
+            ip: ip.create_sender(),
+            relay: Vec::new(),
+            custom,
+            max_transmit_segments: NonZeroUsize::MIN,
+        };
+        Ok((sender, layout))
     }
 }
 
